@@ -193,9 +193,13 @@ Definition set_field (f : nat) (a : val) (fields : list val) : list val :=
 
 Definition is_byte (z : Z) : bool := (0 <=? z) && (z <? 256).
 
+(* the position an index expression addresses in a string/vector/bytes of the given length *)
+Definition leaf_index (pe : pelem) (len : nat) : option nat :=
+  match pe with PI z => norm_index len z | _ => None end.
+
 (* a string of exactly one byte: that byte *)
 Definition str1 (w : val) : option val :=
-  match w with VSeq KStr [(_, b)] _ => Some b | _ => None end.
+  match w with VSeq KStr [(_, VInt b)] _ => Some (VInt b) | _ => None end.
 
 (* eval.rs set_index(lhs, indexes, value, every) on a tree; value = None is drop_lhs.
    Returns the new tree and whether it succeeded.  A failure can leave earlier elements of an
@@ -226,11 +230,12 @@ Fixpoint v_set (every : bool) (p : path) (new : option val) (v : val) : val * bo
       end
     | VSeq KStr items d =>
       match pe, rest with
-      | PI z, [] =>
+      | PSl _ _, _ => (v, false)
+      | _, [] =>
         match new with
         | Some w =>
           match str1 w with
-          | Some b => match norm_index (length items) z with
+          | Some b => match leaf_index pe (length items) with
                       | Some n => (VSeq KStr (set_nth n b items) d, true)
                       | None => (v, false)
                       end
@@ -268,9 +273,10 @@ Fixpoint v_set (every : bool) (p : path) (new : option val) (v : val) : val * bo
       end
     | VSeq KVec items d =>
       match pe, rest with
-      | PI z, [] =>
+      | PSl _ _, _ => (v, false)
+      | _, [] =>
         match new with
-        | Some (VInt n) => match norm_index (length items) z with
+        | Some (VInt n) => match leaf_index pe (length items) with
                            | Some i => (VSeq KVec (set_nth i (VInt n) items) d, true)
                            | None => (v, false)
                            end
@@ -281,9 +287,10 @@ Fixpoint v_set (every : bool) (p : path) (new : option val) (v : val) : val * bo
       end
     | VSeq KBytes items d =>
       match pe, rest with
-      | PI z, [] =>
+      | PSl _ _, _ => (v, false)
+      | _, [] =>
         match new with
-        | Some (VInt n) => match norm_index (length items) z with
+        | Some (VInt n) => match leaf_index pe (length items) with
                            | Some i => if is_byte n then (VSeq KBytes (set_nth i (VInt n) items) d, true)
                                        else (v, false)
                            | None => (v, false)
